@@ -178,6 +178,12 @@ def check_error(e, root, spec, who):
         want = _render(ops) if ops else None      # the path text only; the wording around it is free
     if want is not None and want not in msg:
         raise Violation("message-without-path", f"{who}: message {msg!r} does not name {want!r}")
+    if want is not None:
+        # a formatter with another root name renders the same path below that root
+        msg2 = e.format(Formatter("payload"))
+        want2 = "payload" + want[1:]
+        if want2 not in msg2:
+            raise Violation("message-without-path", f"{who}: Formatter('payload') message {msg2!r} does not name {want2!r}")
     return name, len(ops)
 
 
